@@ -23,6 +23,8 @@ import lyast as A          # noqa: E402
 import lyref               # noqa: E402
 import lynative            # noqa: E402
 
+# LYRUN=/path/to/lyrun selects another build of the VM (useful while the shared
+# binary is being rebuilt by other jobs)
 LYRUN = os.environ.get('LYRUN', '/verif/target/dbg/debug/lyrun')
 NAN = float('nan')
 INF = float('inf')
@@ -734,8 +736,17 @@ def callable_probes():
           V('f').call(1, 2, 3), V('f').call(), fn('g', ''), V('g').len(), V('g').call(), V('g').name())
     probe('lambda len call', let('l', lam('x y z', V('x'))), V('l').len(), V('l').call(1, 2, 3), lam('', 7).call(),
           lam('', 7).len(), lam('x', V('x')).call([1]))
-    refuse('lambda name', lam('x', 1).name())
-    refuse('let lambda name', let('l', lam('x', 1)), V('l').name())
+    probe('lambda names', lam('x', 1).name(), let('g', lam('x', 1)), V('g').name(), let('h', V('g')), V('h').name(),
+          let('a', blk('x', let('b', 1), let('c', lam('y', V('y'))), fn('inner', '', ret(lam('z', V('z')))),
+                       A.Class('K', None, None, [fn('mm', '', ret(lam('w', V('w'))))]),
+                       ret(L(lam('q', V('q')).name(), V('c').name(), V('inner')().name(), V('K')().mm().name(),
+                             V('inner').name())))),
+          V('a')(1), V('a').name(), fn('top', '', ret(lam('x', V('x')))), V('top')().name(),
+          let('d', L(1).iter().map(lam('x', lam('y', V('y')).name())).list()), V('d'),
+          let('e'), assign(V('e'), lam('x', V('x'))), V('e').name(),
+          let('m', {'k': lam('x', V('x')), 'j': [lam('x', V('x'))]}), V('m')['k'].name(), V('m')['j'][0].name(),
+          A.For('i', lift(L(lam('x', V('x')))), [pr(V('i').name())]),
+          L(1).iter().map(lam('x', V('x'))).into(lam('i', 1)), L(lam('x', 1)).iter().map(lam('f', V('f').name())).list())
     refuse('fn cls', fn('f', ''), V('f').cls())
     refuse('fn str', fn('f', ''), V('f').str())
     probe('fn equals', fn('f', ''), fn('g', ''), V('f').equals(V('f')), V('f').equals(V('g')), eq(V('f'), V('f')),
@@ -777,6 +788,15 @@ def callable_probes():
           V('b').m('isA?')(V('A')), V('b').m('isA?')(V('B')), V('a').m('isA?')(V('B')), V('a').m('isA?')(V('Object')),
           V('a').m('isA?')(V('Error')), V('a').equals(), V('a').cls(1), V('a').foo(), V('a').equals.name(),
           V('a').cls.call().name())
+    probe('super object methods', A.Class('A', None, None, [fn('eq', 'o', ret(E(A.Super('equals'))(V('o')))),
+                                                            fn('kls', '', ret(E(A.Super('cls'))().name())),
+                                                            fn('isa', 'c', ret(E(A.Super('isA?'))(V('c')))),
+                                                            fn('equals', 'o', ret('overridden'))]),
+          A.Class('B', 'A', None, [fn('eq2', 'o', ret(E(A.Super('equals'))(V('o'))))]),
+          let('a', V('A')()), V('a').eq(V('a')), V('a').eq(1), V('a').kls(), V('a').isa(V('A')), V('a').isa(V('Error')),
+          V('a').equals(V('a')), V('B')().eq2(1), V('B')().kls(),
+          A.Class('E2', 'ValueError', None, [fn('k', '', ret(E(A.Super('cls'))().name()))]), V('E2')('m').k())
+    refuse('super str', A.Class('A', None, None, [fn('s', '', ret(E(A.Super('str'))()))]), V('A')().s())
     refuse('instance str', A.Class('A', None, None, []), V('A')().str())
     probe('instance user str', A.Class('A', None, None, [fn('str', '', ret('custom'))]), V('A')().str(), L(V('A')()).str())
     probe('error instance methods', let('e', V('ValueError')('m')), V('e').cls().name(), V('e').m('isA?')(V('Error')),
@@ -1008,6 +1028,109 @@ def pipeline_fuzz_probes(count=1000, seed=20260926):
         probe('pipeline fuzz %d' % pi, *items, msg=True)
 
 
+def collection_fuzz_probes(count=500, seed=4242):
+    """Random operation sequences on one list, one map (at most one entry is
+    ever printed or iterated), one string and one tuple, arguments drawn from a
+    pool with boundary and invalid indices."""
+    rnd = random.Random(seed)
+    idx = [0, 1, 2, 3, 5, -1, -2, -3, -6, 0.5, -0.0, NAN, INF, -INF, 1e19, -1e19, 7, 4]
+    vals = [0, 1, 2.5, 's', '', None, True, False, NAN, -0.0, 'ab']
+    strs = ['', 'abc', 'héé', 'a😀b', '日本語x', ' pad ', 'a,b,,c', 'MiXeD ÀÉ']
+    for pi in range(count):
+        items = [let('a', [rnd.choice(vals) for _ in range(rnd.randrange(0, 6))]),
+                 let('m', {}), let('s', rnd.choice(strs)),
+                 let('t', tuple(rnd.choice(vals) for _ in range(rnd.randrange(0, 5))))]
+        keys = [1, 's', None, True, 0, -0.0, 0.5, '']
+        for _ in range(rnd.randrange(6, 18)):
+            k = rnd.randrange(36)
+            i, j, v = rnd.choice(idx), rnd.choice(idx), rnd.choice(vals)
+            a, m, sv, t = V('a'), V('m'), V('s'), V('t')
+            if k == 0:
+                items += [a.push(*[rnd.choice(vals) for _ in range(rnd.randrange(0, 4))]), a]
+            elif k == 1:
+                items += [a.pop(), a]
+            elif k == 2:
+                items += [a.insert(i, v), a]
+            elif k == 3:
+                items += [a.remove(i), a]
+            elif k == 4:
+                items += [a[i]]
+            elif k == 5:
+                items += [E(A.Assign(A.Index(A.Var('a'), lift(i)), lift(v))), a]
+            elif k == 6:
+                items += [a.slice(i, j), a.slice(i)]
+            elif k == 7:
+                items += [a.has(v), a.index(v), a.len()]
+            elif k == 8:
+                items += [a.rev(), a]
+            elif k == 9:
+                items += [a.clear(), a] if rnd.random() < 0.3 else [a.iter().list(), a.str()]
+            elif k == 10:
+                items += [a.iter().skip(i).len(), a.iter().take(i).list()]
+            elif k == 11:
+                items += [t[i], t.slice(i, j), t.slice(i)]
+            elif k == 12:
+                items += [t.has(v), t.index(v), t.len(), t.str(), t.iter().list()]
+            elif k == 13:
+                items += [V('Tuple').collect(a.iter()), V('List').collect(t.iter())]
+            elif k == 14:
+                items += [sv[i], sv.slice(i, j), sv.slice(i)]
+            elif k == 15:
+                items += [sv.len(), sv.upCase(), sv.downCase(), sv.trim(), sv.trimStart(), sv.trimEnd()]
+            elif k == 16:
+                sep = rnd.choice([',', '', 'b', 'é', ' ', 'abc'])
+                items += [sv.split(sep).list(), sv.has(sep), sv.iter().len()]
+            elif k == 17:
+                key = rnd.choice(keys)
+                # keep the map at one entry at most: clear it first when the key is new
+                items += [guarded([ife(no(m.has(key)), [A.For('kv', lift(m.iter().list()), [st(m.remove(V('kv')[0]))])])]),
+                          m.set(key, v), m, m.len()]
+            elif k == 18:
+                key = rnd.choice(keys)
+                items += [m[key], m.get(key), m.has(key)]
+            elif k == 19:
+                key = rnd.choice(keys)
+                items += [m.remove(key), m, m.len()]
+            elif k == 20:
+                key = rnd.choice(keys)
+                items += [guarded([ife(no(m.has(key)), [A.For('kv', lift(m.iter().list()), [st(m.remove(V('kv')[0]))])])]),
+                          m.insert(key, v), E(A.Assign(A.Index(A.Var('m'), lift(key)), lift(v))), m.str()]
+            elif k == 21:
+                items += [m.iter().list(), m.iter().len(), m.iter().first()]
+            elif k == 22:
+                items += [L(*[rnd.randrange(-5, 6) for _ in range(rnd.randrange(0, 9))]).sort(
+                    rnd.choice([V('Number').cmp, lam('x y', V('y') - V('x')),
+                                lam('x y', (V('x') / 2).floor() - (V('y') / 2).floor())]))]
+            elif k == 23:
+                n = rnd.choice([0, 1, 2.5, -2.5, 0.5, -0.5, 1.5, 1e15 + 0.5, -7.49, 3.999999999999999])
+                items += [X(n).floor(), X(n).ceil(), X(n).round(), X(n).str()]
+            elif k == 24:
+                items += [X(i).times().len(), X(i).until(j + 0, 1).take(3).list() if j == j and abs(j) < 100 and i == i and abs(i) < 100 else X(1).until(2).list()]
+            elif k == 25:
+                items += [a.equals(a), a.equals(t), t.equals(t), m.equals(m), sv.equals(sv), sv.equals(rnd.choice(strs))]
+            elif k == 26:
+                items += [a.cls().name(), t.cls().name(), m.cls().name(), sv.cls().name(), a.iter().cls().name()]
+            elif k == 27:
+                items += [a.push.call(v), a, a.len.call(), sv.len.call(), a.slice.call(i)]
+            elif k == 28:
+                items += [a.iter().zip(t.iter()).list(), a.iter().chain(t.iter(), sv.iter()).len()]
+            elif k == 29:
+                items += [a.iter().reduce(0, lam('x y', V('x') + 1)), t.iter().map(lam('x', L(V('x')))).list()]
+            elif k == 30:
+                items += [a.iter().filter(lam('x', V('x'))).list(), t.iter().all(lam('x', V('x'))), t.iter().any(lam('x', V('x')))]
+            elif k == 31:
+                items += [guarded([assign(V('a'), a.slice(i, j))]), a]
+            elif k == 32:
+                items += [guarded([assign(V('s'), sv.slice(i, j))]), sv] if rnd.random() < 0.3 else [assign(V('s'), rnd.choice(strs))]
+            elif k == 33:
+                items += [guarded([assign(V('t'), V('Tuple').collect(a.iter()))]), t]
+            elif k == 34:
+                items += [E(A.OpAssign(A.Index(A.Var('a'), lift(i)), '+', lift(1))), a]
+            else:
+                items += [a.iter().last(), a.iter().first(), sv.iter().last(), t.iter().last()]
+        probe('collection fuzz %d' % pi, *items)
+
+
 def build_probes():
     index_probes()
     number_probes()
@@ -1023,6 +1146,7 @@ def build_probes():
     case_mapping_probes()
     parse_fuzz_probes()
     pipeline_fuzz_probes()
+    collection_fuzz_probes()
 
 
 # ---------------------------------------------------------------------------
@@ -1054,7 +1178,9 @@ def run_real(src, workdir, idx):
     return {'out': out, 'outcome': 'crash(%s)' % r.returncode, 'cls': None, 'stderr': err}
 
 
-def run_model(stmts):
+def run_model(stmts, annotate=True):
+    if annotate:
+        lynative.annotate_lambda_names(stmts)
     it = lyref.Interp(main_path='main.lay')
     try:
         outcome, info = it.run(stmts)
@@ -1082,6 +1208,7 @@ def main(argv):
         # extra random pipelines only: --fuzz COUNT [--seed N]
         seed = int(argv[argv.index('--seed') + 1]) if '--seed' in argv else 1
         pipeline_fuzz_probes(int(argv[argv.index('--fuzz') + 1]), seed)
+        collection_fuzz_probes(int(argv[argv.index('--fuzz') + 1]), seed)
     else:
         build_probes()
     probes = [p for p in PROBES if pat is None or pat in p.name]
@@ -1120,6 +1247,16 @@ def main(argv):
             failures.append((p, src, real, model, 'mismatch'))
         if verbose and status:
             print('%-60s %s' % (p.name, status))
+    if pat is None and '--fuzz' not in argv:
+        # without the optional pre-pass the name of a lambda must be refused
+        chk = [A.Let('g', A.Lambda(['x'], A.Var('x'), True)), A.Print([A.Call(A.Prop(A.Var('g'), 'name'), [])])]
+        A.to_source(chk)
+        if run_model(chk, annotate=False)['outcome'] != 'refuse':
+            failures.append((Probe('lambda name without annotate_lambda_names', []), '', {'out': [], 'outcome': '-', 'cls': None,
+                                                                                       'stderr': ''},
+                             {'out': [], 'outcome': 'answered', 'cls': None}, 'expected the model to refuse'))
+        else:
+            refused_ok += 1
     for p, src, real, model, why in failures:
         print('=' * 78)
         print('FAIL [%s] %s' % (why, p.name))
@@ -1139,7 +1276,7 @@ def main(argv):
         print('--- model  : %s %s %s' % (model['outcome'], model['cls'] or '', model.get('why', '')))
         for i, l in enumerate(model['out']):
             print('  %s %s' % (' ' if i < len(real['out']) and real['out'][i] == l else '*', l))
-    total = len(probes)
+    total = passed + refused_ok + refused_auto + len(failures)
     print('-' * 78)
     print('%d probes: %d agree, %d refused as expected, %d refused (generated kind/arity probes), %d FAILED'
           % (total, passed, refused_ok, refused_auto, len(failures)))
